@@ -5,6 +5,7 @@
    Delimiters: good_quoted_dlm dlm = non-empty, no double quote, and not starting with a space unless it is
    exactly one space (the regex eats the spaces that follow a quoted field, see C11_space_led_delimiter). *)
 From RBQL Require Import Base Csv CsvSpec CsvStr_Proofs Csv_Proofs CsvRoundtrip_Proofs CsvNecessity_Proofs CsvRelabel_Proofs CsvWsPreserve_Proofs.
+From RBQL Require Import PyStr JsStr CsvIx CsvIx_Proofs CsvIxJs CsvIxJs_Proofs.
 
 (* the model computes exactly the dialect relation: a field is quoted iff some sp* QF sp* is followed by the
    delimiter or the end; otherwise it runs to the next delimiter; warning iff such a field contains a quote *)
@@ -151,3 +152,106 @@ Theorem C11_space_led_delimiter_refuted :
   exists dlm line fs w, good_quoted_dlm dlm = false /\ Split dlm line fs w /\ split_quoted_str dlm false line <> (fs, w).
 Proof. exact space_led_delimiter_not_dialect. Qed.
 Print Assumptions C11_space_led_delimiter_refuted.
+
+(* ---------------------------------------------------------------- the index-style model (translation target)
+
+   CsvIx.v states csv_utils.py with the data representation of the source (integer indices into src, str.find = -1,
+   result.append, the while loop as while_fuel with fuel S (length src), assert / out of fuel = None, the policy by name);
+   harness/translate_csv.py regenerates that text from the source on every run and the check compiles
+   gen_py_<name> = ix_<name> (generated file).  These theorems say that the index model IS the model above. *)
+
+(* for every non-empty delimiter other than the quote (the assert of the source) the loop ends within its fuel and
+   returns what Csv.split_quoted_str returns - every line, both modes *)
+Theorem C11_index_model_split_quoted_str : forall (src dlm : str) (preserve : bool), dlm <> [] -> dlm <> [QT] ->
+  ix_split_quoted_str src dlm preserve = Some (split_quoted_str dlm preserve src).
+Proof. exact ix_split_quoted_str_correct. Qed.
+Print Assumptions C11_index_model_split_quoted_str.
+
+(* one step of the loop: at an index n inside the line, extract_next_field appends the field the model takes from the
+   suffix src[n:], reports the model's warning, and returns an index m that denotes the model's next position *)
+Theorem C11_index_model_extract_next_field : forall (src dlm : str) (preserve ext : bool) (n : nat) (result : list str),
+  dlm <> [] -> (n < length src)%nat ->
+  exists m : nat,
+    ix_extract_next_field src dlm preserve ext (Z.of_nat n) result =
+      (result ++ [snd (fst (fst (extract_next_field dlm preserve ext (skipn n src))))],
+       (Z.of_nat m, snd (fst (extract_next_field dlm preserve ext (skipn n src))))) /\
+    pos_agrees src m (snd (extract_next_field dlm preserve ext (skipn n src))).
+Proof. exact ix_extract_next_field_correct. Qed.
+Print Assumptions C11_index_model_extract_next_field.
+
+Theorem C11_index_model_whitespace : forall (src : str) (preserve : bool),
+  ix_split_whitespace_separated_str src preserve = split_whitespace_separated_str preserve src.
+Proof. exact ix_split_whitespace_separated_str_correct. Qed.
+Print Assumptions C11_index_model_whitespace.
+
+Theorem C11_index_model_smart_split : forall (pol : policy) (src dlm : str) (preserve : bool),
+  (quoted_policy pol = true -> dlm <> [] /\ dlm <> [QT]) ->
+  ix_smart_split src dlm (policy_name pol) preserve = Some (smart_split pol dlm preserve src).
+Proof. exact ix_smart_split_correct. Qed.
+Print Assumptions C11_index_model_smart_split.
+
+Theorem C11_index_model_quote_field : forall (src delim : str),
+  ix_quote_field src delim = quote_field_py delim src /\ ix_rfc_quote_field src delim = rfc_quote_field_py delim src.
+Proof. exact (fun src delim => conj (ix_quote_field_correct src delim) (ix_rfc_quote_field_correct src delim)). Qed.
+Print Assumptions C11_index_model_quote_field.
+
+(* the dialect theorem, stated about the index model *)
+Theorem C11_index_model_is_dialect : forall (dlm line : str) (fs : list str) (w : bool), good_quoted_dlm dlm = true ->
+  (ix_split_quoted_str line dlm false = Some (fs, w) <-> Split dlm line fs w).
+Proof. exact ix_C11_split_is_dialect. Qed.
+Print Assumptions C11_index_model_is_dialect.
+
+(* non-vacuity: the line of C11_nonvacuous through the index model, delimiter :: ; and the assert *)
+Example C11_index_model_nonvacuous :
+  ix_split_quoted_str ([SP; QT; 97; QT; QT; 98; QT; SP; 58; 58; 120; QT; 121; 58; 58; SP; QT; 99; QT; SP; 122; 58; 58])%N [58; 58]%N false
+    = Some ([[97; QT; 98]; [120; QT; 121]; [SP; QT; 99; QT; SP; 122]; []]%N, true) /\
+  ix_split_quoted_str [97; QT]%N [QT] false = None /\
+  ix_smart_split [SP; 97; SP; SP; 98; SP]%N [SP] (policy_name Whitespace) true = Some ([[SP; 97; SP]; [98; SP]]%N, false).
+Proof. vm_compute. repeat split. Qed.
+Print Assumptions C11_index_model_nonvacuous.
+
+(* ---------------------------------------------------------------- the index-style model of rbql-js/csv_utils.js
+
+   CsvIxJs.v: the same functions with the representation of the JavaScript source (substring(cidx) handed to an anchored
+   pattern, match_obj[0].length, indexOf / startsWith with a position, the exec loop of a global pattern, the counting
+   for-loop with fuel S (length result), [fields, warning] arrays as pairs; strings = sequences of UTF-16 code units);
+   regenerated from the source on every run like CsvIx.v.  No assert in this port: every non-empty delimiter. *)
+Theorem C11_js_index_model_split_quoted_str : forall (src dlm : str) (preserve : bool), dlm <> [] ->
+  jsix_split_quoted_str src dlm preserve = Some (split_quoted_str dlm preserve src).
+Proof. exact jsix_split_quoted_str_correct. Qed.
+Print Assumptions C11_js_index_model_split_quoted_str.
+
+Theorem C11_js_index_model_extract_next_field : forall (src dlm : str) (preserve ext : bool) (n : nat) (result : list str),
+  dlm <> [] -> (n < length src)%nat ->
+  exists m : nat,
+    jsix_extract_next_field src dlm preserve ext (Z.of_nat n) result =
+      (result ++ [snd (fst (fst (extract_next_field dlm preserve ext (skipn n src))))],
+       (Z.of_nat m, snd (fst (extract_next_field dlm preserve ext (skipn n src))))) /\
+    pos_agrees src m (snd (extract_next_field dlm preserve ext (skipn n src))).
+Proof. exact jsix_extract_next_field_correct. Qed.
+Print Assumptions C11_js_index_model_extract_next_field.
+
+(* the counting loop ends within its fuel *)
+Theorem C11_js_index_model_whitespace : forall (src : str) (preserve : bool),
+  jsix_split_whitespace_separated_str src preserve = Some (split_whitespace_separated_str preserve src).
+Proof. exact jsix_split_whitespace_separated_str_correct. Qed.
+Print Assumptions C11_js_index_model_whitespace.
+
+Theorem C11_js_index_model_smart_split : forall (pol : policy) (src dlm : str) (preserve : bool),
+  (quoted_policy pol = true -> dlm <> []) ->
+  jsix_smart_split src dlm (policy_name pol) preserve = Some (smart_split pol dlm preserve src).
+Proof. exact jsix_smart_split_correct. Qed.
+Print Assumptions C11_js_index_model_smart_split.
+
+Theorem C11_js_index_model_quote_field : forall (src delim : str),
+  jsix_quote_field src delim = quote_field_js delim src /\ jsix_rfc_quote_field src delim = rfc_quote_field_js delim src.
+Proof. exact (fun src delim => conj (jsix_quote_field_correct src delim) (jsix_rfc_quote_field_correct src delim)). Qed.
+Print Assumptions C11_js_index_model_quote_field.
+
+Example C11_js_index_model_nonvacuous :
+  jsix_split_quoted_str ([SP; QT; 97; QT; QT; 98; QT; SP; 58; 58; 120; QT; 121; 58; 58; SP; QT; 99; QT; SP; 122; 58; 58])%N [58; 58]%N false
+    = Some ([[97; QT; 98]; [120; QT; 121]; [SP; QT; 99; QT; SP; 122]; []]%N, true) /\
+  jsix_smart_split [SP; 97; SP; SP; 98; SP]%N [SP] (policy_name Whitespace) true = Some ([[SP; 97; SP]; [98; SP]]%N, false) /\
+  jsix_quote_field [97; QT]%N [COMMA] = [QT; 97; QT; QT; QT]%N.
+Proof. vm_compute. repeat split. Qed.
+Print Assumptions C11_js_index_model_nonvacuous.
